@@ -211,6 +211,15 @@ func (x *Exec) checkWire(o *Obs, reqs []*reqInfo, emits []emit, dels []deliver, 
 			}
 			rq.nresp++
 			if rq.nresp > 1 {
+				challenge := func(r *ref.Msg) bool {
+					return r != nil && r.Class == ref.ClassError && (r.ErrorCode() == 401 || r.ErrorCode() == 438)
+				}
+				if prev := rq.resp; (challenge(prev) && m.Class == ref.ClassSuccess) || (prev != nil && prev.Class == ref.ClassSuccess && challenge(m)) {
+					// told to authenticate - and served all the same
+					x.fail([]string{"C03", "C19"}, "challenged-and-served", "%s: the request was answered with a %d challenge and with a success response", ctx, map[bool]int{true: prev.ErrorCode(), false: m.ErrorCode()}[challenge(prev)])
+
+					return
+				}
 				x.fail([]string{"C19"}, "response-duplicated", "%s: more than one response to one request", ctx)
 
 				return
